@@ -47,7 +47,7 @@ func runC14(e *Env) {
 		} else {
 			m.Carrier = e.P(caString) // carriers accepted by the head
 		}
-		size := c14Sizes[e.P(len(c14Sizes))]
+		size := e.PSize(c14Sizes, 70001)
 		if m.Carrier == caReaderSmall && size > 1024 {
 			size = 1024
 		}
